@@ -18,13 +18,13 @@ class Spy:
         self._f, self._b = sysobj._fwd_prop, sysobj._back_prop
         spy = self
 
-        def fwd(v, i, phase="", state=[]):
-            vo, ost = spy._f(v, i, phase, state)
+        def fwd(v, i, *a_, **kw_):
+            vo, ost = spy._f(v, i, *a_, **kw_)
             spy.sweeps.append({"v_in": list(v), "i_in": list(i), "v_out": list(vo)})
             return vo, ost
 
-        def back(v, i, phase="", state=[]):
-            ii = spy._b(v, i, phase, state)
+        def back(v, i, *a_, **kw_):
+            ii = spy._b(v, i, *a_, **kw_)
             spy.sweeps[-1]["i_out"] = list(ii)
             spy.sweeps[-1]["v_used_for_currents"] = list(v)
             return ii
@@ -58,8 +58,8 @@ def s_converged(ctx, shape, maxiter, delete=()):
         shims.ALLCLOSE_MODE[0], shims.ALLCLOSE_HOOK[0] = "tolerance", None
         orig_init = sysobj._sys_init
 
-        def sym_init(phase=""):
-            v0, i0, state = orig_init(phase)
+        def sym_init(*a_, **kw_):
+            v0, i0, state = orig_init(*a_, **kw_)
             from ..shims import SymArr
 
             v, i = SymArr([0.0] * len(v0)), SymArr([0.0] * len(i0))
@@ -178,6 +178,68 @@ def s_feedforward(ctx, shape):
         C._Component._solv_get_warns = old_w
         if ctx.symbolic:
             shims.ALLCLOSE_MODE[0] = "exact"
+
+
+def s_divzero(ctx, shape, phase):
+    """(b) "never returns NaN/inf, never an intermediate iterate": a law that divides by zero INSIDE solve().  The API accepts a phase
+    value of 0 ohm for an RLoad (the constructor rejects it).  Such a path has no real-number semantics (numpy carries on with
+    inf / nan), so it is decided per path on one concrete witness run through the unmodified float code (ctx.probe): solve() must
+    raise (RuntimeError - the non-finite iterate never passes the convergence test) or return a finite table that is a steady state."""
+    sysobj, info, durations = sysh.build_system(ctx, shape)
+    zero_loads = [nd["name"] for nd in shape["nodes"] if nd.get("zero_ohm_ok")]
+    if ctx.symbolic:
+        from .. import shims
+        import sysloss.components as C
+
+        shims.ALLCLOSE_MODE[0], shims.ALLCLOSE_HOOK[0] = "tolerance", None
+        old_w = C._Component._solv_get_warns
+        C._Component._solv_get_warns = lambda self_, *a, **k: ""
+        try:
+            sysobj.solve(maxiter=2, phase=phase)
+            ctx.cover("returned")
+        except symx.NonFinite:
+            ctx.cover("division-by-zero-inside-solve")
+            ctx.probe("division-by-zero=>raises-or-finite-steady-state", key="divzero/%s" % phase, info={"phase": phase})
+        except RuntimeError as e:
+            if "Steady-state not achieved" not in str(e):
+                raise
+            ctx.cover("runtime-error")
+        except ValueError as e:
+            if "Unstable system" not in str(e):
+                raise
+        finally:
+            C._Component._solv_get_warns = old_w
+            shims.ALLCLOSE_MODE[0] = "exact"
+        return
+    import math
+    import numpy as np
+
+    with np.errstate(all="ignore"):
+        try:
+            df = sysobj.solve(maxiter=300, phase=phase)
+        except RuntimeError as e:
+            if "Steady-state not achieved" not in str(e):
+                raise
+            return
+        except ValueError as e:
+            if "Unstable system" not in str(e):
+                raise
+            return
+        except (ZeroDivisionError, FloatingPointError):
+            return  # raising is allowed ("else raises")
+    rows = sysh.table_rows(df)[phase]
+    bad = []
+    for nm, r in rows.items():
+        for k in ("vin", "vout", "iin", "iout", "pwr", "loss"):
+            v = r.get(k)
+            if isinstance(v, (int, float)) and not math.isfinite(v):
+                bad.append("%s.%s=%r" % (nm, k, v))
+    for nm in zero_loads:
+        conf = info[nm]["conf"] or {}
+        if phase in conf and abs(conf[phase]) == 0.0 and abs(rows[nm]["vin"]) > 1e-9:
+            # 0 ohm across a live rail: no finite current satisfies I*R = V
+            bad.append("%s: %g V across 0 ohm with Iin=%r is not a steady state" % (nm, rows[nm]["vin"], rows[nm]["iin"]))
+    ctx.check("division-by-zero=>raises-or-finite-steady-state", cond(not bad), key="divzero/%s" % phase, info={"phase": phase, "bad": bad[:6]})
 
 
 def u_finite(ctx, kind, form="const", phase="none"):
@@ -407,6 +469,16 @@ def instances(tier):
     }
     for sid, sh in c_shapes.items():
         out.append(Instance("C03", "c03:s_physical", dict(shape=sh), name="C/" + sid, uf=True, cover=["returned"], weight=10))
+    # (b) at system level: a phase value of 0 ohm (accepted by set_comp_phases) makes the RLoad law divide by zero inside solve()
+    dz = {
+        "conv-rload0": S(N("S", "Source", only=()), N("C", "Converter", "S", only=()), N("L", "RLoad", "C", only=(), phases=["run", "fault"], zero_ohm_ok=True),
+                         phases=["run", "fault"]),
+        "src-rs-rload0": S(N("S", "Source"), N("L", "RLoad", "S", only=(), phases=["fault"], zero_ohm_ok=True), N("L2", "ILoad", "S", only=()),
+                           phases=["run", "fault"]),
+    }
+    for sid, sh in dz.items():
+        out.append(Instance("C03", "c03:s_divzero", dict(shape=sh, phase="fault"), name="B/divzero/" + sid, uf=True,
+                            cover=["division-by-zero-inside-solve", "returned"], weight=10))
     ff = {
         "conv-pload": S(N("S", "Source", only=()), N("C", "Converter", "S"), N("L", "PLoad", "C")),
         "linreg-rload": S(N("S", "Source", only=()), N("G", "LinReg", "S"), N("L", "RLoad", "G")),
